@@ -22,7 +22,7 @@ def walkIds (s : S) (size : Nat) : String :=
 
 def step (s : S) : List String → S × String
   | ["reset"] => (init, "ok")
-  | ["mk", id] =>
+  | ["mk", id] | ["mkbin", id] =>      -- (mkbin: the same record in the old binary encoding)
     match has s id with
     | some _ => (s, "err")
     | none => (⟨s.recs ++ [(id, false)], s.raw⟩, "ok")
@@ -63,7 +63,7 @@ structure J where
 def jstep (j : J) (ws : List String) : J × String :=
   match ws with
   | ["reset", "=>", _] => (⟨[]⟩, "pass")
-  | ["mk", id, "=>", o] => (if o = "ok" then ⟨insertSorted id j.ids⟩ else j, "pass")
+  | ["mk", id, "=>", o] | ["mkbin", id, "=>", o] => (if o = "ok" then ⟨insertSorted id j.ids⟩ else j, "pass")
   | ["cancel", id, "=>", o] | ["del", id, "=>", o] => (if o = "ok" then ⟨j.ids.filter (· ≠ id)⟩ else j, "pass")
   | ["commit", _, "=>", _] | ["raw", _, "=>", _] => (j, "pass")
   | ["get", id, "=>", o] =>
